@@ -1,6 +1,7 @@
 import Bxh.Proofs.ExecStepsT
 import Bxh.Proofs.ExecBlock
 import Bxh.Proofs.TimeoutList
+import Bxh.Proofs.ExecRec
 /-!
 # Who puts a one-to-one id on a timeout list: only `setTimeoutList`, only for an accepted request of the block
 
@@ -334,5 +335,247 @@ theorem applyTxs_zip_exists (cfg : Cfg) (cache : KV (String × String) Svc) (hgt
         · right
           exact ⟨by unfold txStep; exact h1 _ _ _ _ hgp h, q, List.mem_append_left _ hq, hr⟩)
     simpa using this
+
+theorem count_map_single (A : List TxId) (t : TxId) :
+    (A.map (fun t => some (TId.single t))).count (some (TId.single t)) = A.count t := by
+  induction A with
+  | nil => rfl
+  | cons a rest ih =>
+    simp only [List.map_cons, List.count_cons, ih]
+    by_cases h : a = t
+    · subst h; simp
+    · have : (some (TId.single a) == some (TId.single t)) = false := by
+        simp; exact h
+      simp [this, h]
+
+/-- the list under a deadline after a block's bookkeeping holds `t` at most as often as before plus the block's additions of `t` -/
+theorem listAfter_count_le (v : Option Val) (A R : List TxId) (lst : List (Option TId)) (t : TxId)
+    (e : listAfter v A R = some (.tlist lst)) :
+    lst.count (some (TId.single t)) ≤ (curList v).count (some (TId.single t)) + A.count t := by
+  unfold listAfter at e
+  simp only at e
+  have c1 : (curList (if A = [] then v
+      else some (.tlist (if curList v == [none] then A.map (fun t => some (TId.single t)) else curList v ++ A.map (fun t => some (TId.single t)))))).count (some (TId.single t))
+      ≤ (curList v).count (some (TId.single t)) + A.count t := by
+    by_cases hA : A = []
+    · rw [if_pos hA]; omega
+    · rw [if_neg hA]
+      show List.count (some (TId.single t)) (if curList v == [none] then A.map (fun t => some (TId.single t))
+        else curList v ++ A.map (fun t => some (TId.single t))) ≤ _
+      by_cases hn : (curList v == [none]) = true
+      · rw [if_pos hn, count_map_single]; omega
+      · rw [if_neg hn, List.count_append, count_map_single]; omega
+  by_cases hR : R = []
+  · rw [if_pos hR] at e
+    have : lst = curList (some (.tlist lst)) := rfl
+    rw [this, ← e]
+    exact c1
+  · rw [if_neg hR] at e
+    cases e
+    refine Nat.le_trans (count_normList_le _ t) (Nat.le_trans ((foldl_goRemove_sublist R _).count_le _) c1)
+
+theorem setTimeoutList_count_le (cfg : Cfg) (l : Led) (h : Nat) (txs : List Tx) (rcpts : List Rcpt) (d : Nat) (t : TxId) :
+    listCount (setTimeoutList cfg l h txs rcpts) d t ≤
+      listCount l d t + (addsAt d ((txs.zip rcpts).map (fun p => timeoutAct cfg l h p.1 p.2))).count t := by
+  by_cases hna : ((txs.zip rcpts).map (fun p => timeoutAct cfg l h p.1 p.2)).contains .abort = false
+  · unfold listCount
+    rw [setTimeoutList_at cfg l h txs rcpts d hna]
+    split
+    · rename_i lst e
+      have := listAfter_count_le _ _ _ lst t e
+      rw [curList_count] at this
+      unfold listCount at this
+      exact this
+    · exact Nat.zero_le _
+  · unfold setTimeoutList
+    have : ((txs.zip rcpts).map (fun p => timeoutAct cfg l h p.1 p.2)).contains .abort = true := by simpa using hna
+    rw [if_pos this]
+    omega
+
+
+/-- **the most general loop invariant of the serial loop**: a predicate on the ledger and on the (transaction, receipt) pairs so far
+that every transaction preserves holds of the ledger after the block and of all its pairs -/
+theorem applyTxs_zip_fold (cfg : Cfg) (cache : KV (String × String) Svc) (hgt : Nat) (G : Tx → Prop) (Φ : Led → List (Tx × Rcpt) → Prop)
+    (hstep : ∀ idx l zs tx inv, G tx → Φ l zs →
+      Φ (applyTx { cfg := cfg, cache := cache, height := hgt, txIndex := idx } l tx inv).1
+        (zs ++ [(tx, (applyTx { cfg := cfg, cache := cache, height := hgt, txIndex := idx } l tx inv).2.rcpt)]))
+    (l : Led) (h0 : Φ l []) (txs : List (Tx × Bool)) (hg : ∀ p ∈ txs, G p.1) :
+    Φ (applyTxs cfg cache hgt l txs).led ((txs.map (·.1)).zip (applyTxs cfg cache hgt l txs).rcpts) := by
+  rw [applyTxs_eq]
+  suffices H : ∀ (ts pre : List (Tx × Bool)) (a : Acc), (∀ p ∈ ts, G p.1) → a.rcpts.length = pre.length →
+      Φ a.led ((pre.map (·.1)).zip a.rcpts) →
+      Φ (ts.foldl (txStep cfg cache hgt) a).led (((pre ++ ts).map (·.1)).zip (ts.foldl (txStep cfg cache hgt) a).rcpts) by
+    have := H txs [] { led := l } hg rfl (by simpa using h0)
+    simpa using this
+  intro ts
+  induction ts with
+  | nil => intro pre a _ _ h; simpa using h
+  | cons p rest ih =>
+    intro pre a hg hlen h
+    simp only [List.foldl_cons]
+    have hgp := hg p (List.mem_cons_self ..)
+    have hz : ((pre ++ [p]).map (·.1)).zip (txStep cfg cache hgt a p).rcpts =
+        (pre.map (·.1)).zip a.rcpts ++ [(p.1, (applyTx { cfg := cfg, cache := cache, height := hgt, txIndex := a.idx } a.led p.1
+          (if !p.2 then some "bad-sig" else match p.1 with
+            | .ibtp _ i pk => proofVerdict cfg i pk
+            | _ => none)).2.rcpt)] := by
+      unfold txStep
+      simp only [List.map_append, List.map_cons, List.map_nil]
+      rw [List.zip_append (by simp [hlen])]
+      rfl
+    have := ih (pre ++ [p]) (txStep cfg cache hgt a p) (fun q hq' => hg q (List.mem_cons_of_mem _ hq'))
+      (by unfold txStep; simp [hlen])
+      (by rw [hz]; unfold txStep; exact hstep _ _ _ _ _ hgp h)
+    simpa using this
+
+/-- the transaction is an IBTP request that names `t` -/
+def reqFor (t : TxId) : Tx → Bool
+  | .ibtp _ i _ => i.typ.isRequest && decide (i.frm = some t.frm) && decide (i.to = some t.to) && decide (i.index = t.index)
+  | _ => false
+
+/-- … and its receipt is a success -/
+def reqOk (t : TxId) (p : Tx × Rcpt) : Bool := reqFor t p.1 && p.2.ok
+
+theorem reqFor_of {t : TxId} {s : String} {i : Ibtp} {p : ProofKind} (hreq : i.typ.isRequest = true) (hfr : i.frm = some t.frm)
+    (hto : i.to = some t.to) (hix : i.index = t.index) : reqFor t (.ibtp s i p) = true := by
+  simp [reqFor, hreq, hfr, hto, hix]
+
+theorem reqFor_elim {t : TxId} {tx : Tx} (h : reqFor t tx = true) :
+    ∃ s i p, tx = .ibtp s i p ∧ i.typ.isRequest = true ∧ i.frm = some t.frm ∧ i.to = some t.to ∧ i.index = t.index := by
+  cases tx with
+  | ibtp s i p =>
+    simp only [reqFor, Bool.and_eq_true, decide_eq_true_eq] at h
+    exact ⟨s, i, p, rfl, h.1.1.1, h.1.1.2, h.1.2, h.2⟩
+  | xfer _ _ _ => simp [reqFor] at h
+  | bvm _ _ _ _ => simp [reqFor] at h
+
+/-- "add" names the deadline `h + T` of a request with `0 < T < maxU64 − h` -/
+theorem timeoutAct_add_deadline {cfg : Cfg} {l : Led} {h : Nat} {tx : Tx} {rc : Rcpt} {d : Nat} {id : TxId}
+    (e : timeoutAct cfg l h tx rc = .add d id) :
+    ∃ s i p, tx = .ibtp s i p ∧ 0 < i.timeout ∧ i.timeout.toNat < maxU64 - h ∧ d = h + i.timeout.toNat := by
+  unfold timeoutAct at e
+  split at e
+  · rename_i s i p
+    split at e
+    · rename_i f t hf ht
+      by_cases hreq : i.typ.isRequest = true
+      · have hresp : i.typ.isResponse = false := by
+          cases hh : i.typ <;> simp_all [IType.isRequest, IType.isResponse]
+        simp only [hreq, hresp, if_true, Bool.not_false, Bool.and_true] at e
+        split at e
+        · cases e
+        · split at e
+          · cases e
+          · split at e
+            · cases e
+            · split at e
+              · cases e
+              · rename_i hcond
+                cases e
+                exact ⟨s, i, p, rfl, by omega, by omega, rfl⟩
+      · simp only [hreq, Bool.false_eq_true, if_false] at e
+        split at e
+        · cases e
+        · simp only [Option.isSome_none, Bool.false_eq_true, if_false] at e
+          split at e
+          · cases e
+          · split at e
+            · split at e
+              · split at e <;> cases e
+              · cases e
+              · split at e
+                · cases e
+                · split at e <;> cases e
+            · cases e
+    · cases e
+  · cases e
+
+/-- in that range the recorded deadline is that height -/
+theorem recordHeight_of_add (h : Nat) (T : Int) (h1 : 0 < T) (h2 : T.toNat < maxU64 - h) :
+    recordHeight h (toU64 T) = h + T.toNat := by
+  have hm : maxU64 < 2 ^ 64 := by unfold maxU64; omega
+  have e : toU64 T = T.toNat := by
+    unfold toU64
+    have : T % (2 ^ 64 : Int) = T := Int.emod_eq_of_lt (by omega) (by have : (T.toNat : Int) = T := Int.toNat_of_nonneg (by omega); omega)
+    rw [this]
+  rw [e]
+  unfold recordHeight
+  have : ¬ (T.toNat = 0 ∨ T.toNat ≥ maxU64 - h) := by omega
+  rw [if_neg this]
+
+
+/-- a handled request: the ledger after it agrees on every record with the ledger right after `beginTransaction` -/
+theorem handleIBTP_request_after {env : Env} {l : Led} {i : Ibtp} {ck : Checked} {r : Led × String}
+    (hck : checkIBTP env l i = .ok ck) (h : handleIBTP env l i = .ok r) (hreq : i.typ.isRequest = true) :
+    ∃ l1 c, beginTransaction env l i ck = .ok (l1, c) ∧ ∀ t, r.1.getS (.txRec t) = l1.getS (.txRec t) := by
+  unfold handleIBTP at h
+  simp only [hck, hreq, if_true] at h
+  split at h
+  · cases h
+  · rename_i l1 c hr
+    refine ⟨l1, c, hr, fun t => ?_⟩
+    have hn : (notifySrcDst env l1 ck.src ck.dst c ck.isBatch).getS (.txRec t) = l1.getS (.txRec t) :=
+      notifySrcDst_frameA _ _ _ _ _ _ _ (rec_not_aux t)
+    have hp := processIBTP_rec (notifySrcDst env l1 ck.src ck.dst c ck.isBatch) i ck c t
+    generalize hpr : processIBTP (notifySrcDst env l1 ck.src ck.dst c ck.isBatch) i ck c = pr at h hp
+    obtain ⟨l3, ret⟩ := pr
+    simp only at h hp
+    split at h
+    · split at h
+      · cases h
+      · cases h
+        show ((l3.post .audit).post .audit).getS _ = _
+        simp only [Led.getS_post]
+        rw [hp, hn]
+    · cases h; rw [hp, hn]
+
+/-- **an accepted plain request inside one hub writes its record**: status BEGIN (BEGIN_FAILURE when the destination is unusable),
+deadline `recordHeight` of the block's height and the request's timeout -/
+theorem handleIBTP_new_record {env : Env} {l : Led} {i : Ibtp} {ck : Checked} {r : Led × String}
+    (hck : checkIBTP env l i = .ok ck) (h : handleIBTP env l i = .ok r) (hreq : i.typ.isRequest = true)
+    (hloc : ck.src.bxh = ck.dst.bxh) (hg : i.group = none) :
+    r.1.getS (.txRec { frm := ck.src, to := ck.dst, index := i.index }) =
+      some (.trec { height := recordHeight env.height (toU64 i.timeout), status := if ck.targetErr then .beginFailure else .begin }) := by
+  obtain ⟨l1, c, hb, hafter⟩ := handleIBTP_request_after hck h hreq
+  rw [hafter]
+  unfold beginTransaction at hb
+  simp only [hloc, ne_eq, not_true_eq_false, if_false, hg] at hb
+  cases hb
+  simp only [Led.getS_addS, if_true]
+
+/-- a successful receipt of an IBTP transaction means that `HandleIBTP` succeeded on the ledger the transaction started from, and the
+ledger after the transaction is its result as far as storage goes -/
+theorem applyTx_ok_effect (env : Env) (l : Led) (s : String) (i : Ibtp) (p : ProofKind) (inv : Option String)
+    (hok : (applyTx env l (.ibtp s i p) inv).2.rcpt.ok = true) :
+    ∃ r, handleIBTP env (txStart l) i = .ok r ∧ ∀ k, (applyTx env l (.ibtp s i p) inv).1.getS k = r.1.getS k := by
+  unfold applyTx at hok ⊢
+  simp only at hok ⊢
+  have hb : ∀ ret, (applyBxh env (txStart l) (.ibtp s i p) inv).2.1 = .ok ret →
+      ∃ r, handleIBTP env (txStart l) i = .ok r ∧ (applyBxh env (txStart l) (.ibtp s i p) inv).1 = r.1 := by
+    intro ret hh
+    unfold applyBxh at hh ⊢
+    split at hh
+    · cases hh
+    · simp only at hh ⊢
+      split at hh
+      · rename_i l' ret' hok'
+        exact ⟨(l', ret'), hok', by simp⟩
+      · split at hh
+        · split at hh <;> cases hh
+        · cases hh
+  split at hok
+  · rename_i l2 hpay
+    simp only at hok ⊢
+    cases hr : (applyBxh env (txStart l) (.ibtp s i p) inv).2.1 with
+    | error e =>
+      have hr' : (applyBxh env { l with journal := [], events := [] } (.ibtp s i p) inv).2.1 = .error e := hr
+      rw [hr'] at hok; cases hok
+    | ok ret =>
+      obtain ⟨r, h1, h2⟩ := hb ret hr
+      refine ⟨r, h1, fun k => ?_⟩
+      rw [← h2]
+      exact getS_of_store (by rw [finalise_store]; exact payGasFee_store _ _ _ _ _ hpay) k
+  · cases hok
+
 
 end Bxh.Exec
